@@ -34,6 +34,7 @@ def run(rep):
     rep.guard(c04_narrow.b4n, rep, w)   # line information kept in sub-word counters (run lengths) wraps on long lines: later errors are reported with the wrong line
     import c05
     rep.guard(c05.e12, rep, w)    # the line of an instruction is a function of (chunk, offset): the chunk keeps no cursor or memo that an earlier report moves
+    rep.guard(l16, rep, w)
 
 
 def first_getter_from(f, b, limit=6):
@@ -926,3 +927,48 @@ def l15(rep, w, prop='C17'):
     import c01
     r.check(bool(pushes) and c01.all_paths_hit(f, None, pushes), 'add_message: push on every path',
             'Error::add_message can return without having stored the message: part of an error report is silently dropped', f.loc())
+
+
+def l16(rep, w, prop='C17'):
+    """a built-in the host program adds (the command line's `read_file_to_string`) fails like any other built-in: with an Err that becomes a
+    catchable error of a class and with a message. Nothing it can reach in the host crate unwraps / expects the result of an operation on the
+    outside world (file system, I/O, UTF-8 decoding of bytes read) - that would end the process with a panic where the program had a try block."""
+    r = rep.rule('L16', 'host built-ins reach no unwrap / expect of an I/O or decoding result', floor=1)
+    cli = w.crates.get('yarel_cli')
+    if cli is None:
+        raise Broken(prop, 'anchor', 'crate yarel_cli not analysed')
+    natives = []
+    for f in cli.fns.values():
+        if f.kind == 'Closure' or f.argc != 2:
+            continue
+        ret, a1, a2 = cli.tstr(f.local_ty(0)), cli.tstr(f.local_ty(1)), cli.tstr(f.local_ty(2))
+        if 'Result<' in ret and 'Value' in ret and 'Error' in ret and a1.startswith('&mut') and a1.endswith('Vm') and a2 == 'usize':
+            natives.append(f)
+    if not natives:
+        raise Broken(prop, 'anchor', 'no host built-in (fn(&mut Vm, usize) -> Result<Value, Error>) found in the command line crate')
+    OUTSIDE = ('std::fs::', 'std::io::', 'std::string::String::from_utf8', 'std::str::from_utf8', 'core::str::from_utf8', 'std::env::', 'std::path::', 'std::ffi::')
+    for nf in sorted(natives, key=lambda x: x.path):
+        seen, todo = set(), [nf.path]
+        while todo:
+            p_ = todo.pop()
+            if p_ in seen or p_ not in cli.fns:
+                continue
+            seen.add(p_)
+            g = cli.fns[p_]
+            for _, t in g.calls(only_normal=False):
+                tg, _, _ = w.call_targets(g, t)
+                todo.extend(x for x in tg if x in cli.fns)
+        bad = []
+        for p_ in sorted(seen):
+            g = cli.fns[p_]
+            org = None
+            for bi, t in g.calls():
+                tail = strip_generics(callee_name(t) or '').rsplit('::', 1)[-1]
+                if tail in ('unwrap', 'expect', 'unwrap_unchecked') and t['args']:
+                    org = org or origins(g)
+                    pl = op_place(t['args'][0])
+                    if pl is not None and any(q[0][0] == 'call' and strip_generics(q[0][2]).startswith(OUTSIDE) for q in org.get(pl['l'], ())):
+                        bad.append('%s (%s)' % (p_.rsplit('::', 1)[-1], tail))
+        r.check(not bad, '%s / failures of the outside world come back as Err' % nf.path,
+                'the host built-in %s reaches %s on the result of a file / decoding operation: a file that cannot be read or decoded ends the process with a panic instead of raising '
+                'an error the program can catch' % (nf.path, ', '.join(sorted(set(bad)))), nf.loc())
